@@ -166,6 +166,48 @@ func (o *obs) stopMetas() {
 	}
 }
 
+// initPlan: Init argument of a process that spawns children inside its Init and then fails
+type initPlan struct {
+	Children []*childSpec
+	Fail     error
+	Panic    bool
+}
+
+type childSpec struct {
+	PO   gen.ProcessOptions
+	F    gen.ProcessFactory
+	Inst *actors.Inst
+	PID  gen.PID
+	Err  error
+}
+
+func (cs *childSpec) linkKind() string {
+	switch {
+	case cs.PO.LinkParent && cs.PO.LinkChild:
+		return "both"
+	case cs.PO.LinkParent:
+		return "linkparent"
+	case cs.PO.LinkChild:
+		return "linkchild"
+	}
+	return "neither"
+}
+
+func newChildSpec(label string, lc, lp bool) *childSpec {
+	f, inst := actors.NewProbe(label, observerHooks())
+	return &childSpec{PO: gen.ProcessOptions{LinkChild: lc, LinkParent: lp}, F: f, Inst: inst}
+}
+
+// doSpawn lets observer o spawn a process with Init arguments
+func doSpawn(o *obs, c cmd, args ...any) (res, bool) {
+	c.Op = "spawn"
+	c.Done = make(chan res, 1)
+	if err := node.Send(o.pid, spawnArgs{c, args}); err != nil {
+		return res{Err: err}, false
+	}
+	return waitRes(c.Done)
+}
+
 // observer behaviour: trap exit on, execute commands, record everything (the
 // Inst of the probe records every message, the notifications are read from it)
 func observerHooks() *actors.Hooks {
@@ -176,6 +218,16 @@ func observerHooks() *actors.Hooks {
 				if c, ok := a.(cmd); ok {
 					// self-sent command: handled right after the spawn
 					p.Send(p.PID(), c)
+				}
+				if plan, ok := a.(*initPlan); ok {
+					// spawn children inside Init, then fail the initialization
+					for _, cs := range plan.Children {
+						cs.PID, cs.Err = p.Spawn(cs.F, cs.PO)
+					}
+					if plan.Panic {
+						panic("c04 requested panic in Init")
+					}
+					return plan.Fail
 				}
 			}
 			return nil
@@ -667,11 +719,12 @@ func nextCase() {
 
 func main() {
 	hk.InstallHook()
-	hk.Rule("D (directed): target kind {pid, name, alias, event, meta-process alias} x {link, monitor} x cause {Kill, handler error, unregister by owner, Node.UnregisterName, meta stop / handler error} x order of the steps check(C), insert(I) of the requester and table delete(X), drain(Y), continuation(Z) of the terminator: CIXY CXIY CXYI XCY YCZ XYCI, forced by gates at link.checked, proc.unreg.* / node.unregname.deleted and at the entry/exit of TargetManager.CleanupTarget (tap); the same for the REMOVAL of an established relation (UXY XUY YUZ XYU); the same with the target written as gen.Atom / with an empty Node (spelling); event subscribers parked at event.sub.added (CIsXYr, CIsXrY; first and second subscriber; unregister by owner, by the node, owner termination); DeleteAlias bookkeeping (n aliases, delete #i, watch #j); LinkChild with the parent parked at proc.spawn.linked; LinkParent. Non-trivial iff the order MEASURED from hook ticks and tap records equals the intended one. " +
+	hk.Rule("D (directed): target kind {pid, name, alias, event, meta-process alias} x {link, monitor} x cause {Kill, handler error, unregister by owner, Node.UnregisterName, meta stop / handler error} x order of the steps check(C), insert(I) of the requester and table delete(X), drain(Y), continuation(Z) of the terminator: CIXY CXIY CXYI XCY YCZ XYCI, forced by gates at link.checked, proc.unreg.* / node.unregname.deleted and at the entry/exit of TargetManager.CleanupTarget (tap); the same for the REMOVAL of an established relation (UXY XUY YUZ XYU); the same with the target written as gen.Atom / with an empty Node (spelling); event subscribers parked at event.sub.added (CIsXYr, CIsXrY; first and second subscriber; unregister by owner, by the node, owner termination); DeleteAlias bookkeeping (n aliases, delete #i, watch #j); LinkChild with the parent parked at proc.spawn.linked; LinkParent. Init failure: a process spawns children (neither/LinkChild/LinkParent/both) inside Init and Init fails (error/wrapped/panic); non-trivial iff all judged children were spawned and decided. Non-trivial iff the order MEASURED from hook ticks and tap records equals the intended one. " +
 		"R (race): the same pairs raced under seeded delays at the same yield points; non-trivial iff request and disappearance really overlapped (check passed although the delete preceded the insert, or the request ran between delete and drain); key includes the measured order and the result class. F (fan): 3-8 requesters on all target kinds of one owner racing one termination; non-trivial iff >=1 request overlapped the drain of its target. " +
 		"S (history): seeded random sequential histories (<=40 operations over 3-9 trap-exit observers, targets written in random spellings, each operation decided at quiescence); non-trivial iff >=1 disappearance was matched by >=1 notification of a live relation; key = set of (relation x target kind x cause) classes notified in the history.")
 	hk.Assume("observers are act.Actor processes with SetTrapExit(true); an exit signal from the parent is not trappable in act.Actor and is observed as the terminate reason of the child")
 	hk.Assume("local targets only (one node, network mode hidden, no peers); remote links/monitors go through the network layer and are not exercised here")
+	hk.Assume("a child spawned with LinkChild only holds no relation itself: whether it is stopped when its parent's Init fails is not judged")
 	hk.Assume("a relation whose consumer has terminated expects nothing; consumers that die in the same step as the target (cascade through LinkParent) are not judged for other notifications of that step")
 	freshNode()
 	t0 := time.Now()
